@@ -205,8 +205,7 @@ func TestVerif_C10_e2e(t *testing.T) {
 	n := verifh.N(160, 4000)
 	for i := 0; i < n; i++ {
 		tc := &c10Case{}
-		mode := c10RandShape(r, tc)
-		tc.url = o.srv.URL + "/" + c10Word(r, false)
+		mode := c10RandShape(r, tc, o.srv.URL, false)
 		tc.trace = r.Intn(4) != 0
 		tc.dump = r.Intn(4) != 0
 		cnt := "n=" + []string{"-1", "0", "1", "2", "5", "2", "2", "5"}[r.Intn(8)]
